@@ -38,12 +38,22 @@ package testing
 //@   ensures r != nil
 //@   ensures old(t.failed) ==> t.failed
 //@   ensures old(t.teardownFailed) ==> t.teardownFailed
-//@   ensures len(t.teardownStack) >= old(len(t.teardownStack))
+//@   ensures Gmarks >= old(Gmarks)
+//@   ensures (t.failed && !old(t.failed)) ==> (Gmarks > old(Gmarks) && !t.tearingDown)
+//@   ensures Gmarks > old(Gmarks) ==> (t.tearingDown ? t.teardownFailed : t.failed)
+//@   ensures (t.teardownFailed && !old(t.teardownFailed)) ==> t.tearingDown
+//@   ensures len(t.teardownStack) >= old(len(t.teardownStack)) && !isnil(t.teardownStack)
 //@   ensures forall j int :: 0 <= j && j < old(len(t.teardownStack)) ==> t.teardownStack[j] == old(t.teardownStack[j])
+//@   ensures forall j int :: 0 <= j && j < len(t.teardownStack) ==> t.teardownStack[j] != nil
 //@   onpanic old(t.failed) ==> t.failed
 //@   onpanic old(t.teardownFailed) ==> t.teardownFailed
-//@   onpanic len(t.teardownStack) >= old(len(t.teardownStack))
+//@   onpanic Gmarks >= old(Gmarks)
+//@   onpanic (t.failed && !old(t.failed)) ==> (Gmarks > old(Gmarks) && !t.tearingDown)
+//@   onpanic Gmarks > old(Gmarks) ==> (t.tearingDown ? t.teardownFailed : t.failed)
+//@   onpanic (t.teardownFailed && !old(t.teardownFailed)) ==> t.tearingDown
+//@   onpanic len(t.teardownStack) >= old(len(t.teardownStack)) && !isnil(t.teardownStack)
 //@   onpanic forall j int :: 0 <= j && j < old(len(t.teardownStack)) ==> t.teardownStack[j] == old(t.teardownStack[j])
+//@   onpanic forall j int :: 0 <= j && j < len(t.teardownStack) ==> t.teardownStack[j] != nil
 //@   onpanic errorsIs(panicValue, errFailNow) ==> (t.tearingDown ? t.teardownFailed : t.failed)
 //@
 //@ globalinv {C07} errFailNow != nil
@@ -206,6 +216,7 @@ package testing
 //@
 //@ func NewTWithOptions
 //@   props C04 C06 C07
+//@   modifies nothing
 //@   requires forall j int :: 0 <= j && j < len(options) ==> options[j] != nil
 //@   dyncall options : tOption
 //@   loop 0 invariant -1 <= rangeindex && rangeindex < len(options) && wfT(t) && !t.failed && !t.teardownFailed && !t.tearingDown && len(t.teardownStack) == 0 && t.Scenario == scenarioName
